@@ -198,6 +198,11 @@ def check_config(ctx, F, tag):
     # count is the number of set bits of B only while the bits past the end of the raw vector are zero (C05.R1)
     import c05
     c05.check_tail_invariant(Relabel(ctx, {"C05.R1.tail-cleared-after-trigger": "C01.R3.raw-vector-tail-cleared"}), F, tag)
+    # ... and for the same reason while no word survives past the end (a pop that trims the words before it lowers the length), while
+    # growing with `true` fills the rest of the last word, and while an integer written into the raw vector stays inside its field
+    c05.check_word_count(ctx, F, tag, rule="C01.R3.raw-vector-word-count")
+    c05.check_grow_fill(ctx, F, tag, prefix="C01.R3.raw-vector")
+    c05.check_write_int(Relabel(ctx, {"C01.R3w.value-masked-before-store": "C01.R3.raw-vector-write-stays-in-field"}), F, tag, prefix="C01.R3w")
     co = F.body("<bit_vector::BitVector as ops::BitVec<'a>>::count_ones")
     ctx.ob("C01.R3.count-ones-is-cached-field", co.name + tag, loc(co.raw["span"]), self_path(co.term_of_local(0)) == ["ones"], "term-shape", "count_ones() = %s" % tstr(co.term_of_local(0)), nontrivial=False)
     ln = F.body("<bit_vector::BitVector as ops::BitVec<'a>>::len")
@@ -266,11 +271,24 @@ def check_rank_layout(ctx, F, tag):
             a_ok = all(core(x[2][1])[0] == "bin" and core(x[2][1])[1] in ("Div", "Shr") and core(core(x[2][1])[2])[:2] == idx and
                        core(core(x[2][1])[3])[:2] == ("const", BS if core(x[2][1])[1] == "Div" else BS.bit_length() - 1) for x in samp)
         # (b) slot
-        shr = [x for x in subs if x[0] == "bin" and x[1] == "Shr" and core(x[3])[0] == "bin" and core(x[3])[1] == "Mul"]
-        b_ok = None
+        # the shift count is slot * RELATIVE_RANK_BITS and nothing else: `slot * 9 + 1` reads across two slots
+        shr = []
+        skewed = False
+        for x in subs:
+            if x[0] == "bin" and x[1] == "Shr":
+                ls = linear(x[3])
+                muls = [k_ for k_ in ls if k_ != () and isinstance(k_, tuple) and k_[0] == "bin" and k_[1] == "Mul"]
+                if len(muls) == 1 and len([k_ for k_ in ls if k_ != ()]) == 1:
+                    if ls[muls[0]] == 1 and ls.get((), 0) == 0:
+                        shr.append(("bin", "Shr", x[2], muls[0]))
+                    else:
+                        skewed = True
+        b_ok = False if skewed else None
         if shr:
             b_ok = False
             for x in shr:
+                if skewed:
+                    break
                 mul = core(x[3])
                 for r_, c_ in ((mul[2], mul[3]), (mul[3], mul[2])):
                     r0 = core(r_)
@@ -423,7 +441,56 @@ def check_select_layout(ctx, F, tag):
                                 any(x[0] == "bin" and x[1] in ("BitAnd", "Rem") and any(y[:2] == rank_p for y in subterms(x)) for x in subterms(kk[2])) for kk in lin)
                 idx_ok[qn + ".short"] = (not bare) and per_block and lin.get((), 0) == 0
     ok = ok and all(ptr_ok.get(k) for k in ("long", "short")) and bool(idx_ok) and all(idx_ok.values())
+    # the entry pushed in an iteration of a fill loop is the value the cursor holds on entry to the iteration: the push comes before
+    # the cursor is advanced (advance first, and entry j holds the position of value j + 1, the last iteration unwraps what may be None)
+    heads = [bi for bi, t in nb.calls() if "ops::Range<" in callee_name(t) and callee_name(t).split("::")[-1] == "next" and bi in nb.loop_blocks()]
+    order_ok = {}
+    for k in ("long", "short"):
+        for _, pbi, v in pushes[k]:
+            cur = [x[1] for x in subterms(v[2]) if x[0] == "var"] if v[0] == "bin" else []
+            hs = [h for h in heads if nb.dominates(h, pbi)]
+            if len(cur) != 1 or not hs:
+                order_ok[k] = None
+                continue
+            h = max(hs, key=lambda x: order[x])
+            body = set(x for x in nb.reachable() if nb.dominates(h, x))
+            inner = set()
+            for x in body:
+                seen, st = set(), [y for y in nb.succ(x) if y in body]
+                while st:
+                    y = st.pop()
+                    if y == h:
+                        inner.add(x)
+                        break
+                    if y in seen:
+                        continue
+                    seen.add(y)
+                    st.extend(z for z in nb.succ(y) if z in body)
+            adv = [d[0] for d in nb.defs().get(cur[0], []) if d[0] in inner]
+            order_ok[k] = bool(adv) and all(nb.dominates(pbi, d) for d in adv) if pbi in inner else None
+    if any(v is False for v in order_ok.values()):
+        ok = False
+    elif ok and any(v is None for v in order_ok.values()):
+        ok = None
+    # the arrays are packed once, after the last push: packing narrows the item width to the largest value pushed so far, and a later
+    # push of a wider value is silently truncated to it
+    packs = [(bi, ref_field(nb, t["args"][0])) for bi, t in nb.calls() if callee_name(t).split("::")[-1] == "pack"]
+    early = []
+    for bi, f in packs:
+        seen, st = set(), list(nb.succ(bi))
+        while st:
+            y = st.pop()
+            if y in seen:
+                continue
+            seen.add(y)
+            st.extend(nb.succ(y))
+        for _, pbi, _ in pushes.get(f, []):
+            if pbi in seen:
+                early.append((f, bi))
+    if early:
+        ok = False
     ctx.ob("C01.R4.select-store-read-agreement", "SelectSupport" + tag, where, ok, "sibling-agreement",
            "builder: sample = %s (position component: %s), offsets %s; tag parity written long=%s short=%s; query: result starts at samples[2*sb]: %s, adds long/short reads: %s/%s under tag parity long=%s short=%s" % (
                tstr(S)[:60], okpos, [(k, o) for k, o, _ in rel], tagbit.get("long"), tagbit.get("short"), qok and qbase, qadd.get("long"), qadd.get("short"), qpar.get("long"), qpar.get("short")) +
-           "; pointer = 2 * len of the array it points into: %s; long entries indexed by pointer + rank within the superblock: %s" % (ptr_ok, idx_ok))
+           "; pointer = 2 * len of the array it points into: %s; long entries indexed by pointer + rank within the superblock: %s" % (ptr_ok, idx_ok) +
+           "; entry pushed before the cursor advances: %s; packed before a later push: %s" % (order_ok, sorted(set(early))))
